@@ -174,9 +174,11 @@ func check(ctx *pbt.Ctx, c Case) error {
 	done := make(chan result, 1)
 	go func() { done <- execute(c, nil) }()
 	var r2 result
+	timer := time.NewTimer(perCaseBound)
 	select {
 	case r2 = <-done:
-	case <-time.After(perCaseBound):
+		timer.Stop()
+	case <-timer.C:
 		return fmt.Errorf("execution did not return within %v", perCaseBound)
 	}
 	if r2.panicS != "" {
@@ -268,7 +270,7 @@ func genCase(t *rapid.T) Case {
 
 func TestTotal(t *testing.T) {
 	pbt.Run(t, pbt.Sub[Case]{
-		Name: "total", Quick: 120000, Thorough: 3000000,
+		Name: "total", Quick: 400000, Thorough: 8000000,
 		Gen: genCase, Check: check, Precommit: true,
 	})
 }
